@@ -22,11 +22,11 @@ import (
 var lastHist []raftrun.Op
 var lastDesc string
 
-// a sixth of the runs are level-B runs (see levelb_test.go); the level is a function of
+// one run in twelve is a level-B run (see levelb_test.go); the level is a function of
 // the run's seed because the simulated CPU cost per step differs between the levels
 // (level B needs the raftkvs bootstrap packages instrumented: the driver says so)
 func isLevelB(seed uint64) bool {
-	return os.Getenv("VERIF_C09_LEVELB") == "1" && sim.SplitMix64(seed^0xb09)%6 == 0
+	return os.Getenv("VERIF_C09_LEVELB") == "1" && sim.SplitMix64(seed^0xb09)%12 == 0
 }
 
 func configure(seed uint64, tier string) sim.RunConfig {
